@@ -120,6 +120,16 @@ def check_C02(code, version, env):
     # the property's bound: nesting <= 100 must parse under Python's *default* recursion limit
     old = sys.getrecursionlimit()
     sys.setrecursionlimit(1000)
+    # "any text parses" holds whatever happened before: every parse here follows a strict parse that was abandoned by
+    # its syntax error inside an indented block, and a token stream dropped half way
+    try:
+        next(iter(grammar(version)._tokenize('if x:\n    (a\n')))
+    except Exception:  # noqa
+        pass
+    try:
+        grammar(version).parse('if x:\n    a b\n', error_recovery=False)
+    except Exception:  # noqa
+        pass
     try:
         m = grammar(version).parse(code)
     except RecursionError as e:
